@@ -33,8 +33,8 @@ const char* pbt_part = "dirs";
 using namespace pbt;
 
 namespace {
-const char* const NAMES[] = {"a", "b", "c.d", "e", ".h", "x..", "k"};
-const int NN = 7;
+const char* const NAMES[] = {"a", "b", "c.d", "e", ".h", "x..", "k", "..data", "...", "..x.y"};   // also names that merely begin like the "." / ".." entries
+const int NN = 10;
 const char* const SUF[] = {"a", "b", "c.d", "n1", "n2", ".h"};
 const int NS = 6;
 const char* const PATS[] = {"", "*", "*.d", "a*", "?", "*.*", "b", ".*", "*n*", "??*"};
